@@ -72,3 +72,47 @@ func VerifHarness_C03_polkvless() {
 		verifAssert("pol/transitive", PolKVLess(a, c))
 	}
 }
+
+// verifVarString: a string of symbolic length 0..max (one fork per length) and symbolic bytes.
+func verifVarString(name string, max int) string {
+	return verifString(name, verifChoose(name+".len", max+1))
+}
+
+// specPolKey: the documented tie-break key "name/namespace/kind", built without fmt.
+func specPolKey(k model.PolicyKey) string {
+	b := make([]byte, 0, len(k.Name)+len(k.Namespace)+len(k.Kind)+2)
+	b = append(b, k.Name...)
+	b = append(b, '/')
+	b = append(b, k.Namespace...)
+	b = append(b, '/')
+	b = append(b, k.Kind...)
+	return string(b)
+}
+
+// VerifHarness_C03_tiebreak: equal-order policies are ordered by name first (then namespace, then
+// kind), for names and namespaces of every length combination up to NAMELEN - so that a name that
+// is a prefix of another, and name/namespace pairs whose plain concatenations collide, are covered.
+func VerifHarness_C03_tiebreak() {
+	n := verifParam("NAMELEN", 2)
+	mk := func(p string) PolKV {
+		k := model.PolicyKey{Name: verifVarString(p+".name", n), Namespace: verifVarString(p+".ns", n), Kind: verifString(p+".kind", 1)}
+		for i := 0; i < len(k.Name); i++ {
+			verifAssume(k.Name[i] != '/') // names and namespaces cannot contain '/'
+		}
+		for i := 0; i < len(k.Namespace); i++ {
+			verifAssume(k.Namespace[i] != '/')
+		}
+		return PolKV{Key: k, Value: &policyMetadata{Order: 10}}
+	}
+	a, b := mk("a"), mk("b")
+	ab, ba := PolKVLess(a, b), PolKVLess(b, a)
+	verifAssert("tiebreak/equals-name-namespace-kind-key", ab == (specPolKey(a.Key) < specPolKey(b.Key)))
+	verifAssert("tiebreak/asymmetric", !(ab && ba))
+	if a.Key != b.Key {
+		verifAssert("tiebreak/total-on-distinct-keys", ab || ba)
+	}
+	if a.Key.Name != b.Key.Name {
+		// name decides: with '/' excluded from names, the key order is the order of name+"/"
+		verifAssert("tiebreak/name-first", ab == (a.Key.Name+"/" < b.Key.Name+"/"))
+	}
+}
